@@ -363,6 +363,11 @@ def check_refinement(pid, kind, m0, m1, records, bad, out, uniform_k=None, marke
     # 2. validity (duplicates, degenerate cells, hanging nodes) on the vertex mesh
     p1v = m1.p[:, :nv1]
     probs = geometry_problems(kind, p1v, t1)
+    # points that no cell used before may stay unused (a mesh may carry spare points); new unused points may not appear
+    unused1 = set(range(nv1)) - set(int(v) for v in t1.flatten())
+    unused0 = set(range(m0.p.shape[1])) - set(int(v) for v in t0.flatten())
+    if unused1 <= unused0:
+        probs = [q for q in probs if 'not referenced' not in q]
     if probs:
         bad('invalid-mesh', '; '.join(probs[:3]))
         return
